@@ -72,6 +72,8 @@ var symShapes = []symShape{
 	{"example.com/tool/main", "Run", "library package whose last element is main"},
 	{"example.com/main/sub", "helper", "main as an inner path element"},
 	{"mainframe", "Boot", "package name that starts with main"},
+	{"main", "[...]", "bare generic marker as a name"},
+	{"example.com/lib", "Set.[...]", "name ending in a generic marker"},
 }
 
 type fnItem struct {
@@ -202,6 +204,7 @@ var fileShapes = []fileShape{
 	{"/go/pkg/mod/github.com/foo/bar@v1.2.3/x/y.go", "module cache"},
 	{"/work/_test/_testmain.go", "testmain"},
 	{"/a/b.c.go:1.go", "colon and dots in name"},
+	{"/home/u/my%20project/proj%41/100%25.go", "literal percent sequences (printed verbatim by the runtime)"},
 }
 
 type fileItem struct {
@@ -329,7 +332,8 @@ type lexicon struct {
 	n     int
 	res   *Result
 
-	firstAddr uint64
+	firstAddr     uint64
+	sharedCreator int // 0 not drawn yet, 1 shared, 2-3 not
 }
 
 type argsItem struct {
@@ -361,6 +365,14 @@ func (lx *lexicon) id(abs int) int {
 }
 
 func (lx *lexicon) fnOf(tok string) *fnItem {
+	// in a third of the cases every goroutine of the dump was started by the same function (from
+	// different lines): the creation tokens C1, C2, ... share one symbol
+	if lx.sharedCreator == 0 {
+		lx.sharedCreator = 1 + lx.rng.Intn(3)
+	}
+	if lx.sharedCreator == 1 && len(tok) >= 2 && tok[0] == 'C' && tok[1] >= '0' && tok[1] <= '9' {
+		tok = "C-shared"
+	}
 	if it, ok := lx.fn[tok]; ok {
 		return it
 	}
